@@ -2,7 +2,7 @@
 //! Enumerates ALL operation sequences up to a given length over a small universe of module paths, performs each
 //! on the real graph and on a plain reference graph (sets of vertices and edges), and after every operation checks
 //! the postconditions of the operation and every query against the reference.
-//! args: <n_paths> <max_len> [replay <op,op,...>]     output: one JSON line
+//! args: <n_paths> <max_len> [raw]     (raw: also inc_ref with an unregistered target)     output: one JSON line
 use erg_common::pathutil::NormalizedPathBuf;
 use erg_compiler::module::graph::ModuleGraph;
 use std::collections::{BTreeMap, BTreeSet};
@@ -12,6 +12,8 @@ use std::path::PathBuf;
 enum Op {
     Add(usize),
     Inc(usize, usize),
+    /// inc_ref whose target has not been registered with add_node_if_none (the API allows it)
+    IncRaw(usize, usize),
     Remove(usize),
     Rename(usize),
     Sort,
@@ -106,11 +108,13 @@ fn apply(w: &mut World, op: Op) -> Result<String, String> {
             w.r.nodes.insert(a.clone());
             Ok(format!("add({a})"))
         }
-        Op::Inc(i, j) => {
+        Op::Inc(i, j) | Op::IncRaw(i, j) => {
             let (a, b) = (w.names[i].clone(), w.names[j].clone());
-            // import edges are added between registered modules
-            w.g.add_node_if_none(&p(&b));
-            w.r.nodes.insert(b.clone());
+            if matches!(op, Op::Inc(..)) {
+                // the usual case: import edges are added between registered modules
+                w.g.add_node_if_none(&p(&b));
+                w.r.nodes.insert(b.clone());
+            }
             let edges_before = w.r.edges.clone();
             let res = w.g.inc_ref(&p(&a), p(&b));
             w.r.nodes.insert(a.clone());
@@ -189,7 +193,7 @@ fn apply(w: &mut World, op: Op) -> Result<String, String> {
     }
 }
 
-fn ops(n: usize) -> Vec<Op> {
+fn ops(n: usize, raw: bool) -> Vec<Op> {
     let mut v = vec![Op::Sort];
     for i in 0..n {
         v.push(Op::Add(i));
@@ -197,6 +201,9 @@ fn ops(n: usize) -> Vec<Op> {
         v.push(Op::Rename(i));
         for j in 0..n {
             v.push(Op::Inc(i, j));
+            if raw {
+                v.push(Op::IncRaw(i, j));
+            }
         }
     }
     v
@@ -230,7 +237,8 @@ fn main() {
     let args: Vec<String> = std::env::args().collect();
     let n: usize = args.get(1).map(|s| s.parse().unwrap()).unwrap_or(3);
     let max_len: usize = args.get(2).map(|s| s.parse().unwrap()).unwrap_or(4);
-    let all = ops(n);
+    let raw = args.get(3).map(|s| s == "raw").unwrap_or(false);
+    let all = ops(n, raw);
     let mut seqs = 0u64;
     let mut checks = 0u64;
     let mut states: BTreeSet<Ref> = BTreeSet::new();
